@@ -15,7 +15,9 @@ def first_requests(draw):
   reqs = [draw(st.lists(st.sampled_from(KINDS), min_size=1, max_size=3)) for _ in range(n)]
   fine = st.lists(st.tuples(st.integers(0, 5), st.integers(1, 6)), max_size=80)
   return {"requests": reqs, "schedule": [list(x) for x in draw(fine)],
-          "slow": draw(st.sampled_from([0.0, 0.5, 3.0, 30.0]))}
+          "slow": draw(st.sampled_from([0.0, 0.5, 3.0, 30.0])),
+          # one case in eight asks, drops every reference, collects garbage and asks again instead
+          "lifetime": draw(st.integers(0, 7)) == 0}
 
 
 class C30(Prop):
@@ -32,7 +34,8 @@ class C30(Prop):
           "of virtual time behind the same SingletonDecorator. Oracle: every "
           "request for one singleton, from any thread and afterwards from the body, yields the "
           "same object; Signal()/ReturnStatus() yield the import-time registry objects; an "
-          "ActiveObject's fabric/writer attributes are those same objects. Non-trivial: >=2 threads "
+          "ActiveObject's fabric/writer attributes are those same objects. One case in eight instead asks for each "
+          "singleton, marks it, drops every reference, collects garbage and asks again: the marked object comes back. Non-trivial: >=2 threads "
           "requested the same not-yet-created singleton and a context switch happened while one of "
           "them was inside the singleton wrapper; distinct = distinct case digests.")
   assumptions = ["'fresh process' is emulated by clearing the instance slot of the three lazily created "
@@ -59,7 +62,27 @@ class C30(Prop):
     detsched.virtualize_locks(slow_singleton)
     info = {"inside": 0}
 
+    def lifetime_body(s):
+      """Ask, mark the object, drop every reference to it, collect garbage, ask again: the marked
+      object comes back ("one shared instance for the life of the process")."""
+      import gc
+      askers = [("fabric", ao.ActiveFabric), ("run_event", ao.FiberThreadEvent), ("writer", ao.InstrumentionWriter),
+                ("signal", ev.Signal), ("return_status", ev.ReturnStatus), ("slow_custom", slow_singleton)]
+      for round_ in range(2):
+        for k, ask in askers:
+          token = "vf-%s-%d" % (k, round_)
+          o = ask()
+          o._vf_mark = token
+          o = None
+          gc.collect()
+          back = getattr(ask(), "_vf_mark", None)
+          if back != token:
+            info["lifetime_failure"] = (k, token, back)
+            return
+
     def body(s):
+      if case.get("lifetime"):
+        return lifetime_body(s)
       def worker(reqs):
         for r in reqs:
           if r == "fabric":
@@ -112,6 +135,14 @@ class C30(Prop):
     if s.thread_errors:
       name, e, tb = s.thread_errors[0]
       raise PropertyViolation("thread %s died: %s: %s" % (name, type(e).__name__, e), "C30:thread-error")
+    if case.get("lifetime"):
+      stats.case(case, True, ["lifetime_probe"])
+      if info.get("lifetime_failure"):
+        k, token, back = info["lifetime_failure"]
+        raise PropertyViolation("the %s singleton was marked %r; after every reference to it was dropped and garbage "
+                                "was collected, the next request gave an object marked %r" % (k, token, back),
+                                "C30:not-for-life")
+      return
     shared = set()
     for k in ("fabric", "run_event", "writer"):
       askers = sum(1 for r in case["requests"] if any(x in (k, "active_object") for x in r))
